@@ -380,12 +380,21 @@ def run(ctx) -> Report:
                 rep.violation("C28-args", w, n, f"{n}: the object built reports arguments numbered {nums} in spaces {[ip.py_repr(s)[-24:] for s in sps]}; the map it denotes has {len(want_sp)} argument(s) in {[ip.py_repr(s)[-24:] for s in want_sp]} (numbers must increase strictly along the axes)")
             else:
                 rep.ok("C28-args", w, f"{n}: {len(args)} argument(s) in the spaces of the axes of the map, numbers strictly increasing")
-            if Mo.cls(r) == "FormSum" and len(sums) < 30:
+            if Mo.cls(r) == "FormSum":
                 sums.append((n, r))
     # ---- map_integrands on sums -----------------------------------------------------------------------------
     mi = prog.get_function("ufl.algorithms.map_integrands", "map_integrands")
     c, c2, d_ = atoms["c(V*)"], atoms["c2(V*)"], atoms["d(U*)"]
     n_map = 0
+    # sums with several components first (weights that can be misaligned), distinct weights preferred; a few single-component ones
+    # (components that map_integrands maps as a whole: it descends into Adjoint / Action / nested sums)
+    whole = lambda fs_: all(Mo.cls(c_) in ("Matrix", "Cofunction", "Form", "ZeroBaseForm") for c_ in fs_.attrs["_components"])  # noqa: E731
+    sums = [x for x in sums if whole(x[1])]
+    multi = [x for x in sums if len(x[1].attrs["_components"]) >= 2 and len({id(c_) for c_ in x[1].attrs["_components"]}) == len(x[1].attrs["_components"])]
+    multi.sort(key=lambda x: (-len(set(map(repr, x[1].attrs["_weights"]))), -len(x[1].attrs["_components"])))
+    sums = multi[:40] + [x for x in sums if len(x[1].attrs["_components"]) < 2][:6]
+    if len(multi) < 10:
+        raise AnalysisError(f"only {len(multi)} sums with several components in the family")
     for n, fs in sums:
         comps = list(fs.attrs["_components"])
         for mode in ("identity", "annihilate first", "annihilate last", "annihilate all but last", "swap atoms"):
